@@ -48,6 +48,8 @@ pub const UP: u64 = 31; // the counterparty's PREVIOUS, not yet revoked commitme
 pub const SP: u64 = 32; // sweep of our to_remote output of UP
 pub const TP: u64 = 33; // our timeout claim of the HTLC output of UP
 pub const VP: u64 = 34; // spend of that claim's output
+pub const TC: u64 = 35; // our timeout claim of the HTLC output of UC (an HTLC that exists only in the current commitment)
+pub const VC: u64 = 36; // spend of that claim's output
 
 /// Deliver a block connection the way the real front end does: compact proof, or — when requested, or
 /// when the compact filter has a false positive for a watched outpoint (`TxoProof::verify` refuses the
@@ -256,6 +258,8 @@ impl World {
         let prev_point = lightning_signer::util::test_utils::key::make_test_pubkey(14);
         let (up_to_holder, up_to_cp) = (1_400_000u64, 1_500_000u64);
         let we_offered = vec![HTLCInfo2 { value_sat: 50_000, payment_hash: PaymentHash([7; 32]), cltv_expiry: 130 }];
+        let we_offered_now = vec![HTLCInfo2 { value_sat: 60_000, payment_hash: PaymentHash([8; 32]), cltv_expiry: 140 }];
+        let (uc_to_holder, uc_to_cp) = (1_100_000u64, 1_820_000u64);
         let (to_holder, to_cp, feerate) = (1_000_000u64, 1_900_000u64, 1000u32);
         let offered = vec![
             HTLCInfo2 { value_sat: 30_000, payment_hash: PaymentHash([1; 32]), cltv_expiry: 100 },
@@ -269,23 +273,31 @@ impl World {
             chan.set_next_counterparty_revoke_num_for_testing(commit_num - 1);
             chan.enforcement_state.previous_counterparty_commit_info =
                 Some(CommitmentInfo2::new(true, up_to_holder, up_to_cp, vec![], we_offered.clone(), feerate));
+            // the current commitment 23 carries a DIFFERENT HTLC (the one of 22 was resolved, a new one was offered)
+            chan.enforcement_state.current_counterparty_commit_info =
+                Some(CommitmentInfo2::new(true, uc_to_holder, uc_to_cp, vec![], we_offered_now.clone(), feerate));
             chan.enforcement_state.current_holder_commit_info =
                 Some(CommitmentInfo2::new(false, to_cp, to_holder, offered.clone(), vec![], feerate));
             persister.update_channel(&node.get_id(), chan).unwrap();
             Ok(())
         })
         .unwrap();
-        // the counterparty's commitment 23 (no HTLC): to_local of the counterparty + our to_remote output
+        // the counterparty's commitment 23 (one HTLC we offered, not present in 22): to_local of the counterparty + our to_remote output
         // (p2wpkh for static-remotekey, anchored p2wsh for anchors) + anchors outputs where the type has them
-        let (uc_to_holder, uc_to_cp) = (1_100_000u64, 1_880_000u64);
         let uc = node
-            .with_channel(&channel_id, |chan| Ok(chan.make_counterparty_commitment_tx(&cp_point, commit_num, feerate, uc_to_holder, uc_to_cp, vec![])))
+            .with_channel(&channel_id, |chan| {
+                let oic = lightning_signer::channel::Channel::htlcs_info2_to_oic(&vec![], &we_offered_now);
+                Ok(chan.make_counterparty_commitment_tx(&cp_point, commit_num, feerate, uc_to_holder, uc_to_cp, oic))
+            })
             .unwrap()
             .trust()
             .built_transaction()
             .transaction
             .clone();
         let uc_our = uc.output.iter().position(|o| o.value.to_sat() == uc_to_holder).expect("to_remote output") as u32;
+        let uc_h = uc.output.iter().position(|o| o.value.to_sat() == 60_000).expect("htlc output") as u32;
+        let tc = mk_tx(vec![OutPoint::new(uc.compute_txid(), uc_h)], 1, 30);
+        let vc = mk_tx(vec![OutPoint::new(tc.compute_txid(), 0)], 1, 31);
         let up = node
             .with_channel(&channel_id, |chan| {
                 let oic = lightning_signer::channel::Channel::htlcs_info2_to_oic(&vec![], &we_offered);
@@ -343,6 +355,8 @@ impl World {
         txs.insert(UC, uc);
         txs.insert(UR, ur);
         txs.insert(UN, un);
+        txs.insert(TC, tc);
+        txs.insert(VC, vc);
         txs.insert(UP, up);
         txs.insert(SP, sp);
         txs.insert(TP, tp);
@@ -369,7 +383,7 @@ impl World {
             ids.insert(t.compute_txid(), *k);
         }
         let base_height = node.get_tracker().height();
-        World { persister, seed, node, channel_id, funding_outpoint, txs, ids, blocks: vec![], cb: 0, base_height, filter_false_positives: 0, built: BTreeMap::from([(U, (Some(our), vec![h1.min(h2), h1.max(h2)])), (UC, (Some(uc_our), vec![])), (UR, (Some(ur_our), vec![ur_local])), (UN, (None, vec![])), (UP, (Some(up_our), vec![up_h]))]), htlc_spends: BTreeMap::from([(T1, vec![(h1, 0)]), (T2, vec![(h2, 0)]), (T12, vec![(h1, 0), (h2, 1)]), (JR, vec![(ur_local, 0)]), (TP, vec![(up_h, 0)])]), ctype: ct.to_string() }
+        World { persister, seed, node, channel_id, funding_outpoint, txs, ids, blocks: vec![], cb: 0, base_height, filter_false_positives: 0, built: BTreeMap::from([(U, (Some(our), vec![h1.min(h2), h1.max(h2)])), (UC, (Some(uc_our), vec![uc_h])), (UR, (Some(ur_our), vec![ur_local])), (UN, (None, vec![])), (UP, (Some(up_our), vec![up_h]))]), htlc_spends: BTreeMap::from([(T1, vec![(h1, 0)]), (T2, vec![(h2, 0)]), (T12, vec![(h1, 0), (h2, 1)]), (JR, vec![(ur_local, 0)]), (TP, vec![(up_h, 0)]), (TC, vec![(uc_h, 0)])]), ctype: ct.to_string() }
     }
 
     /// tx tokens `T<id>:<inputs>:<nOut>:<kind>`; the kind of the two closing transactions comes from
@@ -673,7 +687,7 @@ pub fn expected_view(w: &World, chain: &[Vec<u64>]) -> String {
     let close = [U, UC, UR, UN, UP].into_iter().find(|c| height_of(*c).is_some());
     let uc = close.and_then(|c| height_of(c));
     let our_sweeper = |c: u64| if c == U { S } else if c == UC { SC } else if c == UP { SP } else { SR };
-    let second_spender = |t: u64, idx: u32| match (t, idx) { (T1, 0) => Some(V1), (T2, 0) => Some(V2), (T12, 0) => Some(V12A), (T12, 1) => Some(V12B), (TP, 0) => Some(VP), _ => None };
+    let second_spender = |t: u64, idx: u32| match (t, idx) { (T1, 0) => Some(V1), (T2, 0) => Some(V2), (T12, 0) => Some(V12A), (T12, 1) => Some(V12B), (TP, 0) => Some(VP), (TC, 0) => Some(VC), _ => None };
     let mut tracked: Vec<((u64, u32), bool)> = vec![((0, 1), false), ((0, 2), false)]; // (outpoint, spent on chain)
     let spent_input = |id: u64, inp: (u64, u32)| -> bool {
         order.iter().any(|t| *t != id && w.txs[t].input.iter().any(|i| (w.ids.get(&i.previous_output.txid).cloned().unwrap_or(999), i.previous_output.vout) == inp))
